@@ -28,6 +28,9 @@ func (c *pathCtx) freshInt(label string, lo, hi *big.Int, k types.BasicKind) val
 	}
 	d := c.newSym(label, SInt, "int")
 	d.Lo, d.Hi = lo, hi
+	if c.model != nil {
+		c.model[d.Name] = lo
+	}
 	c.addPC(mkAnd(mkLe(mkBig(lo), d.term), mkLe(d.term, mkBig(hi))))
 	c.noteSymbol(label, fmt.Sprintf("int[%s,%s]", lo, hi))
 	return &symv{t: d.term, k: k}
@@ -47,6 +50,9 @@ func registerNondet() {
 		c := fr.i.ctx
 		label := c.concStr(a[0])
 		d := c.newSym(label, SBool, "bool")
+		if c.model != nil {
+			c.model[d.Name] = false
+		}
 		c.noteSymbol(label, "bool")
 		return &symv{t: d.term, k: types.Bool}
 	}
@@ -72,6 +78,9 @@ func registerNondet() {
 		var alts []*Term
 		for _, s := range alpha {
 			alts = append(alts, mkEq(d.term, mkInt(internStr(s))))
+		}
+		if c.model != nil {
+			c.model[d.Name] = big.NewInt(internStr(alpha[0]))
 		}
 		c.addPC(mkOr(alts...))
 		c.noteSymbol(label, "string{"+strings.Join(alpha, "|")+"}")
